@@ -325,25 +325,29 @@ theorem transmit_waitForConfig_none (hop : op ≠ .stop) (hS : p.Sendable fp)
   have hn : ¬ (retry > fp.maxRetry) := by omega
   simp only [Peripheral.transmit, hop, if_false, hn, hc, Peripheral.declined]
 
-/-- PreDataExchange / DataExchange: `diag_in_flight := diag_needed`; then a Slave_Diag request if
-diagnostics are pending, otherwise the data-exchange request with `pi_q` (Operate) or as many zero
-bytes (Clear). -/
+/-- PreDataExchange / DataExchange: the service is decided anew only for a new request
+(`retry_count == 0`: `diag_in_flight := diag_needed`), a retransmission repeats the service in flight
+(`serviceIsDiag`); then a Slave_Diag request, or the data-exchange request with `pi_q` (Operate) or as
+many zero bytes (Clear). -/
 theorem transmit_dataExchange (hop : op ≠ .stop) (hS : p.Sendable fp)
     (hst : p.state = .preDataExchange ∨ p.state = .dataExchange) :
     p.transmit fp op =
-      (let p1 : Peripheral := { p with diagInFlight := p.diagNeeded }
-       if p.diagNeeded then .send { p1 with retry := p.retry + 1 } (p1.diagHeader fp) []
+      (let p1 : Peripheral := { p with diagInFlight := p.serviceIsDiag }
+       if p.serviceIsDiag then .send { p1 with retry := p.retry + 1 } (p1.diagHeader fp) []
        else .send { p1 with retry := p.retry + 1 } (p1.dxHeader fp) (dxPdu op p.piQ)) := by
-  obtain ⟨address, state, retry, fcb, piI, piQ, diag, dn, dif, opts⟩ := p
-  simp only [Peripheral.Sendable] at hS hst
   obtain ⟨h1, h2, -, -, -, -, h7⟩ := hS
-  have hn : ¬ (retry > fp.maxRetry) := by omega
-  rcases hst with hst | hst <;> subst hst <;> cases dn <;>
-    simp only [Peripheral.transmit, hop, if_false, hn, if_true, Bool.false_eq_true]
-  · rw [sent_ok _ _ _ (by rw [dxHeader_lengthByte, dxPdu_length]; omega) (by simp only; omega)]
-  · rw [sent_ok _ _ _ (by rw [diagHeader_lengthByte]; simp) (by simp only; omega)]
-  · rw [sent_ok _ _ _ (by rw [dxHeader_lengthByte, dxPdu_length]; omega) (by simp only; omega)]
-  · rw [sent_ok _ _ _ (by rw [diagHeader_lengthByte]; simp) (by simp only; omega)]
+  have hn : ¬ (p.retry > fp.maxRetry) := by omega
+  have hq : (dxPdu op p.piQ).length ≤ 244 := by rw [dxPdu_length]; exact h7
+  rcases hst with hst | hst <;>
+    (unfold Peripheral.transmit
+     simp only [hop, if_false, hn, hst]
+     cases hsd : p.serviceIsDiag with
+     | true =>
+       simp only [if_true]
+       rw [sent_ok _ _ _ (by rw [diagHeader_lengthByte]; simp) (by simp only; omega)]
+     | false =>
+       simp only [Bool.false_eq_true, if_false]
+       rw [sent_ok _ _ _ (by rw [dxHeader_lengthByte]; omega) (by simp only; omega)])
 
 /-- Whatever `transmit` sends under `Sendable` is addressed from the master to this peripheral, has a
 length byte of at most 249, and the retry counter went up by one. -/
